@@ -117,8 +117,8 @@ pub fn seq_cfg(focus: &'static str, seed: u64, index: u64, clean_only: bool) -> 
         max_weight,
         shards,
         cmd_buf: *rng.pick(&[1usize, 2, 8, 64]),
-        pool: *rng.pick(&[1usize, 2, 4]),
-        buf: *rng.pick(&[1usize, 2, 8]),
+        pool: if focus == "C06" { 1 } else { *rng.pick(&[1usize, 2, 4]) },
+        buf: if focus == "C06" { *rng.pick(&[1usize, 1, 2]) } else { *rng.pick(&[1usize, 2, 8]) },
         tick,
         weight_mode,
         hash_mode: if rng.chance(1, 5) { HashMode::Constant } else { HashMode::Default },
@@ -148,7 +148,7 @@ fn seq_nontrivial(focus: &str, out: &SeqOut) -> bool {
         "C10" => crit("key-swept") || crit("full-cycle"),
         "C16" => c("stats_checks") >= 5,
         "C17" => out.steps_done >= 5,
-        "C06" => c("evictions") > 0 || crit("admission-rejected") || crit("overweight-rejected"),
+        "C06" => crit("end-to-end-decision:") && (c("evictions") > 0 || crit("admission-rejected") || crit("overweight-rejected")),
         "C15" => c("stats_checks") >= 5 && c("reads_returned_value") > 0,
         _ => c("structure_checks") > 0 && c("puts_accepted") > 0,
     }
